@@ -514,6 +514,6 @@ def main(rep, ws, tier):
     rep.trusted[:] = ['clang 14 front end (AST, CFG) through tools/pyrules', 'Boost.Python / CPython headers as installed']
     rep.assumptions += ['boost::python::extract<T>::operator() after a successful check() and operator new do not throw',
                         'only functions that the build instantiates are analysed (template members that no translation unit uses are not compiled into the module either)']
-    rep.undecided_clauses += ['that the elements selected by an index, slice or mask equal those of a Python list (PySlice_GetIndicesEx arithmetic at run time)',
+    rep.undecided_clauses += ['element selection of FixedArray2D / FixedMatrix / FixedVArray slices and of masks (FixedArray index and slice arithmetic is decided by R19.idx; CPython\'s own PySlice_AdjustIndices is trusted)',
                               'validity of a variable-array row view after the row is resized',
                               'component views (.x, .r, ...) taken from a masked reference']
